@@ -69,7 +69,9 @@ def gen_program(rnd):
             aux[name] = apm.SrcFile(name, moved)
             f.stmts[a:b] = [apm.include(name)]
     kind = rnd.choice(["none", "const", "diff", "diff", "diff2", "viasym", "shiftdiv", "shiftdiv", "self", "selfnonlin", "second", "dotlead", "dotlead-diff", "aliascoef",
-                       "aliascoef", "chain2", "fwdmul"])
+                       "aliascoef", "chain2", "fwdmul", "mulright", "mulright", "shadow"])
+    if kind == "shadow" and nfiles < 2:
+        kind = "mulright"
     K = rnd.choice([0, 0o1000, 0o2000, 0o40000, 0o100000, 0o400, 0o157000])
     if rnd.random() < 0.15:
         # odd bases: only byte-sized content is meaningful there
@@ -119,6 +121,30 @@ def gen_program(rnd):
         extra_defs.append(apm.assign("kmul", ("bin", "+", ("sym", "nmul"), apm.num(1))))
         extra_defs.append(apm.assign("nmul", apm.num(rnd.choice([1, 2]))))
         expr = ("bin", "-", ("bin", "+", apm.num(K), ("bin", "*", ("sym", "kmul"), ("sym", a))), ("bin", "*", ("sym", "kmul"), ("sym", b)))
+    elif kind == "mulright":
+        # label * constant (the label is the left factor), often the label at the very first byte of the program
+        a, b = rnd.sample(labels, 2) if len(labels) >= 2 else (labels[0], labels[0])
+        if rnd.random() < 0.5 and b != labels[0]:
+            a = labels[0]
+        elif rnd.random() < 0.5 and a != labels[0]:
+            b = labels[0]
+        c = rnd.choice([1, 2, 2, 3])
+        expr = ("bin", "-", ("bin", "+", apm.num(K), ("bin", "*", ("sym", a), apm.num(c))), ("bin", "*", ("sym", b), apm.num(c)))
+    elif kind == "shadow":
+        # the last file computes its base from two PRIVATE labels it defines further down; the first file exports the same names,
+        # another distance apart: the file's own definitions are meant
+        fl = files[-1]
+        fl.stmts.append(apm.label("shx"))
+        for _ in range(rnd.randrange(1, 4)):
+            fl.stmts.extend(filler(rnd, False))
+        fl.stmts.append(apm.label("shy"))
+        fl.stmts.append(apm.data(".byte", apm.num(1), apm.num(2)))
+        files[0].stmts.insert(rnd.randrange(len(files[0].stmts) + 1), apm.label("shx", extern=True))
+        files[0].stmts.append(apm.data(".byte", apm.num(3), apm.num(4), apm.num(5), apm.num(6)))
+        files[0].stmts.append(apm.label("shy", extern=True))
+        own = ("bin", "+", apm.num(K), ("bin", "-", ("sym", "shy"), ("sym", "shx")))
+        fl.stmts.insert(rnd.randrange(0, max(1, len(fl.stmts) - 6)), apm.link(own))
+        tag += "|own-names"
     elif kind == "shiftdiv":
         expr = ("bin", "+", apm.num(K), rnd.choice([("bin", "<<", ("grp", diff()), apm.num(1)), ("bin", "/", ("grp", diff()), apm.num(2)),
                                                     ("bin", "&", ("grp", diff()), apm.num(0o177776)), ("bin", ">>", ("grp", diff()), apm.num(rnd.choice([1, 2]))),
@@ -350,7 +376,7 @@ def run_case(case, cnt=None, root=None):
             address_dependent = case["skip"].startswith("skip") or any(
                 (s.k == "simple" and s.d in (".even", ".odd")) or (s.k == "blk" and s.d == ".align") or (s.k == "dot" and not getattr(s, "is_base", False) and s is not prog.files[0].stmts[0])
                 for f in list(prog.files) + list(prog.aux.values()) for s in f.stmts)
-            zero_net = case["kind"] in ("diff", "diff2", "viasym", "shiftdiv", "dotlead-diff", "aliascoef", "chain2", "fwdmul")
+            zero_net = case["kind"] in ("diff", "diff2", "viasym", "shiftdiv", "dotlead-diff", "aliascoef", "chain2", "fwdmul", "mulright", "shadow")
             # ... and its two other listed shapes: a label reached through a chain of two or more symbols, a product of a label with a
             # constant that is defined through a later constant
             if o.cls == "fail" and "recursive-definition" in o.ids("error") and (address_dependent or case["kind"] in ("chain2", "fwdmul")) and zero_net:
